@@ -1,0 +1,92 @@
+//go:build verif
+
+package encryptfs
+
+// Machine-checked contracts for /verif (gowp). Comment-only file: it adds no code.
+
+// --- C03/C05: name-space operations are forwarded to the base filespace with the path unchanged ---
+//@ func (*EncryptFS).Copy [C03 C05]
+//@   requires fs.baseFS != nil && fs.Cipher != nil
+//@   at_call Filespace.Copy requires $0 == $p0 && $1 == $p1
+//@   at_call Filespace.*,!Filespace.Copy requires false
+
+//@ func (*EncryptFS).CopyDirectory [C03 C05]
+//@   requires fs.baseFS != nil && fs.Cipher != nil
+//@   at_call Filespace.CopyDirectory requires $0 == $p0 && $1 == $p1
+//@   at_call Filespace.*,!Filespace.CopyDirectory requires false
+
+//@ func (*EncryptFS).CopyFile [C03 C05]
+//@   requires fs.baseFS != nil && fs.Cipher != nil
+//@   at_call Filespace.CopyFile requires $0 == $p0 && $1 == $p1
+//@   at_call Filespace.*,!Filespace.CopyFile requires false
+
+//@ func (*EncryptFS).ReadDir [C03 C05]
+//@   requires fs.baseFS != nil && fs.Cipher != nil
+//@   at_call Filespace.ReadDir requires $0 == $p0
+//@   at_call Filespace.*,!Filespace.ReadDir requires false
+
+//@ func (*EncryptFS).IsExist [C03 C05]
+//@   requires fs.baseFS != nil && fs.Cipher != nil
+//@   at_call Filespace.IsExist requires $0 == $p0
+//@   at_call Filespace.*,!Filespace.IsExist requires false
+
+//@ func (*EncryptFS).IsFile [C03 C05]
+//@   requires fs.baseFS != nil && fs.Cipher != nil
+//@   at_call Filespace.IsFile requires $0 == $p0
+//@   at_call Filespace.*,!Filespace.IsFile requires false
+
+//@ func (*EncryptFS).IsDir [C03 C05]
+//@   requires fs.baseFS != nil && fs.Cipher != nil
+//@   at_call Filespace.IsDir requires $0 == $p0
+//@   at_call Filespace.*,!Filespace.IsDir requires false
+
+//@ func (*EncryptFS).MkdirAll [C03 C05]
+//@   requires fs.baseFS != nil && fs.Cipher != nil
+//@   at_call Filespace.MkdirAll requires $0 == $p0
+//@   at_call Filespace.*,!Filespace.MkdirAll requires false
+
+//@ func (*EncryptFS).ReadFile [C03 C05]
+//@   requires fs.baseFS != nil && fs.Cipher != nil
+//@   at_call Filespace.ReadFile requires $0 == $p0
+//@   at_call Filespace.*,!Filespace.ReadFile requires false
+
+//@ func (*EncryptFS).WriteFile [C03 C05]
+//@   requires fs.baseFS != nil && fs.Cipher != nil
+//@   at_call Filespace.WriteFile requires $0 == $p0
+//@   at_call Filespace.*,!Filespace.WriteFile requires false
+
+//@ func (*EncryptFS).Filespace [C03 C05]
+//@   requires fs.baseFS != nil && fs.Cipher != nil
+//@   at_call Filespace.Filespace requires $0 == $p0
+//@   at_call Filespace.*,!Filespace.Filespace requires false
+
+//@ func (*EncryptFS).Reader [C03 C05]
+//@   requires fs.baseFS != nil && fs.Cipher != nil
+//@   at_call Filespace.Reader requires $0 == $p0
+//@   at_call Filespace.*,!Filespace.Reader requires false
+
+//@ func (*EncryptFS).Writer [C03 C05]
+//@   requires fs.baseFS != nil && fs.Cipher != nil
+//@   at_call Filespace.Writer requires $0 == $p0
+//@   at_call Filespace.*,!Filespace.Writer requires false
+
+//@ func (*EncryptFS).Remove [C03 C05]
+//@   requires fs.baseFS != nil && fs.Cipher != nil
+//@   at_call Filespace.Remove requires $0 == $p0
+//@   at_call Filespace.*,!Filespace.Remove requires false
+
+//@ func (*EncryptFS).RemoveAll [C03 C05]
+//@   requires fs.baseFS != nil && fs.Cipher != nil
+//@   at_call Filespace.RemoveAll requires $0 == $p0
+//@   at_call Filespace.*,!Filespace.RemoveAll requires false
+
+//@ func (*EncryptFS).Lstat [C03 C05]
+//@   requires fs.baseFS != nil && fs.Cipher != nil
+//@   at_call Filespace.Lstat requires $0 == $p0
+//@   at_call Filespace.*,!Filespace.Lstat requires false
+
+
+//@ type EncryptFS
+//@   field baseFS immutable
+//@   field hash immutable
+//@   field Cipher immutable
